@@ -59,7 +59,7 @@ func ValidateWalks(run *evid.Run, walks []OneWalk, workers int) (ValStats, error
 			vs.Accepted += len(remaining)
 			return vs, nil
 		}
-		if hwm == 0 && !invViolated {
+		if hwm == 0 {
 			return vs, fmt.Errorf("trace validation did not run: %s\n%s", res.Violation, tailStr(res.Output, 2000))
 		}
 		// which walk holds event hwm (the first one that was not consumed)?
